@@ -165,6 +165,31 @@ def scen_helper_hangs(rng):
     return s
 
 
+def scen_main_helper_hangs(rng, which):
+    """a helper started from the main process (`new` / `advance_on_success`: the instance query of the clang binary search,
+    the function listing of the gcda pass) hangs past the pass's own time limit: it must not survive the pass run"""
+    if which == 'clang':
+        return {'name': 'main-process-helper-hangs:clang-query', 'tree': {'a.c': {'text': 'keep1\nI0;\nI1;\nI2;\nint x;\n'}}, 'test_cases': ['a.c'],
+                'predicate': 'grep -q keep1 a.c', 'groups': {'first': [], 'main': [{'name': 'clangbinarysearch', 'arg': 'remove-unused-function'}], 'last': []},
+                'N': 2, 'timeout': 5, 'mode': 'pass', 'external': {'clang_delta': 'standin:clang_delta'},
+                'cd_scen': {'query_hang': [rng.choice(['c++11', 'c++17', 'c++2b'])], 'hang_s': 25},
+                'class_consts': {'cvise.passes.clangbinarysearch.ClangBinarySearchPass.QUERY_TIMEOUT': 1}}
+    return {'name': 'main-process-helper-hangs:gcda-listing', 'tree': {'a.gcda': {'text': 'HDR toy coverage file\nF0:aa\nF1:bb\nF2:cc\n'}}, 'test_cases': ['a.gcda'],
+            'predicate': 'grep -q HDR a.gcda', 'groups': {'first': [], 'main': [{'name': 'gcda-binary', 'arg': 'None'}], 'last': []},
+            'N': 2, 'timeout': 5, 'mode': 'pass', 'external': {'gcov-dump': 'standin:gcov-dump'}, 'env': {'STANDIN_HANG': 25}}
+
+
+def scen_stdin_closed(rng):
+    """a pass run that ends through an error before its first candidate: key presses are listened for (no --skip-key-off)
+    but the process has no standard input"""
+    s = scen_basic(rng)
+    s['name'] = 'stdin-closed'
+    s['cfg'] = {'keys_on': True}
+    s['stdin_closed'] = True
+    s['expect_any'] = True
+    return s
+
+
 def scen_order(rng, N):
     """an earlier candidate whose test is slow but interesting, a later one that is fast and interesting: the earlier must win"""
     return {'name': f'order-N{N}', 'tree': {'a.c': {'text': '// WASSLOW\nSLOWLINE\nB\nkeep1\n'}}, 'test_cases': ['a.c'],
